@@ -137,12 +137,49 @@ namespace
             R.npts = (long)sp->getNumPoints();
         };
         auto q_energy = [&]() { R.energy = sp->getEnergy(); };
+        // caller-owned buffers handed to the reference overloads: right shape and already holding other data
+        // (qorder 1), wrong shape (qorder 2), or none (value-returning overloads, qorder 0)
+        const long nsegq = (long)sp->getNumSegments();
+        auto dirty = [&](typename Spline::Gradients &g) {
+            if (qorder == 1)
+            {
+                g.inner_points = Mat::Constant(std::max<long>(nsegq - 1, 0), D, 1.5);
+                g.times = Eigen::VectorXd::Constant(nsegq, -2.25);
+            }
+            else
+            {
+                g.inner_points = Mat::Constant(nsegq + 3, D, 0.75);
+                g.times = Eigen::VectorXd::Constant(nsegq + 2, 4.5);
+            }
+            g.start.p.setConstant(3.25);
+            g.start.v.setConstant(-1.25);
+            g.end.p.setConstant(0.5);
+            g.end.v.setConstant(2.75);
+        };
         auto q_partials = [&]() {
-            R.pgc = sp->getEnergyPartialGradByCoeffs();
-            R.pgt = sp->getEnergyPartialGradByTimes();
+            if (qorder == 0)
+            {
+                R.pgc = sp->getEnergyPartialGradByCoeffs();
+                R.pgt = sp->getEnergyPartialGradByTimes();
+                return;
+            }
+            Mat gdC = (qorder == 1) ? Mat(Mat::Constant(nsegq * NC, D, 7.25)) : Mat(Mat::Constant(nsegq * NC + 5, D, -0.375));
+            sp->getEnergyPartialGradByCoeffs(gdC);
+            R.pgc = gdC;
+            Eigen::VectorXd gdT = (qorder == 1) ? Eigen::VectorXd(Eigen::VectorXd::Constant(nsegq, -3.5))
+                                                : Eigen::VectorXd(Eigen::VectorXd::Constant(nsegq + 1, 6.125));
+            sp->getEnergyPartialGradByTimes(gdT);
+            R.pgt = gdT;
         };
         auto q_egrad = [&]() {
-            auto g = sp->getEnergyGrad();
+            typename Spline::Gradients g;
+            if (qorder == 0)
+                g = sp->getEnergyGrad();
+            else
+            {
+                dirty(g);
+                sp->getEnergyGrad(g);
+            }
             R.egt = g.times;
             R.egi = g.inner_points;
             R.egb.clear();
@@ -152,10 +189,13 @@ namespace
         auto q_prop = [&]() {
             if (ng != 1) return;
             typename Spline::Gradients g;
-            if (qorder == 2)
+            if (qorder == 0)
                 g = sp->propagateGrad(gC, gT); // value-returning overload
             else
-                sp->propagateGrad(gC, gT, g); // reference overload
+            {
+                dirty(g);
+                sp->propagateGrad(gC, gT, g); // reference overload into a used buffer
+            }
             R.hasProp = true;
             R.propInner = g.inner_points;
             R.propTimes = g.times;
